@@ -15,6 +15,7 @@ for d in sorted(glob.glob(os.path.join(ROOT, "seeded", "*", "meta.json"))):
         corr_only += 1
     rows.append(f"| `{m['id']}` | {m['property_targeted']} | {det} |")
 rows.append("| reverting fix F12 | C11 | C11 quick (52 reference violations) |")
+rows.append("| reverting fixes F32 + W3 | C06 | C06 quick: `Verdict.parkedPush` push-promise-waiter-still-parked-after-the-stream-ended (concrete input) + model divergence on the wake-up set |")
 rows.append("")
 rows.append(f"({n} seeded changes stored; {strengthened} were caught only after the machinery was strengthened — what was added is "
             f"named in the row; {corr_only} are reported by their target property through a broken correspondence or theorem only, "
